@@ -1,8 +1,8 @@
 use crate::optimizer::PassAction;
 use boa_ast::{
-    Expression,
-    expression::literal::LiteralKind,
-    statement::{If, Statement},
+    Expression, LinearPosition, Span, Spanned, StatementListItem,
+    expression::literal::{Literal, LiteralKind},
+    statement::{Block, If, Statement},
     visitor::{VisitWith, Visitor},
 };
 use core::ops::ControlFlow;
@@ -75,6 +75,22 @@ impl DeadCodeElimination {
         visitor.found
     }
 
+    /// The statement `undefined;`.
+    ///
+    /// The completion value of an `if` statement or of a loop is never empty
+    /// (`UpdateEmpty(stmtResult, undefined)`), so this is what a removed one leaves behind:
+    /// `1; if (false) 2;` evaluates to `undefined`, not to `1`.
+    fn undefined_statement(span: Span) -> Statement {
+        Statement::Expression(Literal::new(LiteralKind::Undefined, span).into())
+    }
+
+    /// `{ undefined; stmt }`: `stmt` with `undefined` instead of an empty completion value.
+    fn with_undefined_completion(stmt: Statement, span: Span) -> Statement {
+        let statements: Vec<StatementListItem> =
+            vec![Self::undefined_statement(span).into(), stmt.into()];
+        Statement::Block(Block::from((statements, LinearPosition::default())))
+    }
+
     pub(crate) fn try_eliminate_if(if_stmt: &If) -> PassAction<Statement> {
         let Some(cond_value) = Self::as_literal_bool(if_stmt.cond()) else {
             return PassAction::Keep;
@@ -86,14 +102,20 @@ impl DeadCodeElimination {
             {
                 return PassAction::Keep;
             }
-            PassAction::Replace(if_stmt.body().clone())
+            PassAction::Replace(Self::with_undefined_completion(
+                if_stmt.body().clone(),
+                if_stmt.cond().span(),
+            ))
         } else {
             if Self::contains_hoisted_declarations(if_stmt.body()) {
                 return PassAction::Keep;
             }
             match if_stmt.else_node() {
-                Some(alt) => PassAction::Replace(alt.clone()),
-                None => PassAction::Replace(Statement::Empty),
+                Some(alt) => PassAction::Replace(Self::with_undefined_completion(
+                    alt.clone(),
+                    if_stmt.cond().span(),
+                )),
+                None => PassAction::Replace(Self::undefined_statement(if_stmt.cond().span())),
             }
         }
     }
@@ -109,7 +131,7 @@ impl DeadCodeElimination {
             if Self::contains_hoisted_declarations(while_loop.body()) {
                 return PassAction::Keep;
             }
-            return PassAction::Replace(Statement::Empty);
+            return PassAction::Replace(Self::undefined_statement(while_loop.condition().span()));
         }
 
         PassAction::Keep
@@ -137,7 +159,7 @@ impl DeadCodeElimination {
                 return PassAction::Keep;
             }
 
-            return PassAction::Replace(Statement::Empty);
+            return PassAction::Replace(Self::undefined_statement(condition.span()));
         }
 
         PassAction::Keep
